@@ -16,7 +16,7 @@ func init() {
 	register(&Spec{
 		ID: "C01",
 		Decides: "every blob reader that wraps a stream in the registry scheme, the layout scheme and the client is built by blob.NewReader with WithDesc of the caller's descriptor; in BReader.Read every path from the EOF edge to the return evaluates the size test and the digest test, and every path that takes a mismatch edge returns a freshly built error; " +
-			"LimitRead returns a fresh error on both limit-exceeded edges and bounds the slice it reads into; Seek(0) re-creates digester and reader and resets every direct field that Read writes; inline data is returned only behind the length and digest comparisons; the resume guards (Content-Range required, Content-Length compared) exist and return errors; nobody but the reader's own methods touches its raw streams.",
+			"LimitRead returns a fresh error on both limit-exceeded edges and bounds the slice it reads into; Seek(0) re-creates digester and reader and resets every direct field that Read writes; inline data is returned only behind the length and digest comparisons; the resume guards (Content-Range required, Content-Length compared) exist and return errors; nobody but the reader's own methods touches its raw streams; no other function drains the verifying chain without running the EOF comparisons and returning their result.",
 		NotCovered: "that sha256/sha512 are computed correctly, the byte arithmetic for every slicing of reads, the off-by-one inside LimitRead, drop/resume sequences as such.",
 		Run:        runC01,
 	})
